@@ -8,4 +8,5 @@ mkdir -p .cache/ocaml .cache/run .cache/tmp evidence
 ( cd coq && coq_makefile -f _CoqProject -o Makefile >/dev/null && timeout 3000 make -j16 2>&1 | tail -5 )
 ./tools/build_driver.sh
 ( cd harness && CARGO_TARGET_DIR=/verif/.cache/target RUSTFLAGS="--cfg libninja_verif" cargo build --offline --release 2>&1 | tail -3 )
+( cd /repo && CARGO_TARGET_DIR=/verif/.cache/target-cli RUSTFLAGS="--cfg libninja_verif" cargo build --offline --bin libninja 2>&1 | tail -2 )
 echo "setup done"
